@@ -2267,13 +2267,16 @@ func (vm *Thread) growValueStack() {
 	newStackPtr := uintptr(unsafe.Pointer(&newStack[0]))
 	fpOffset := uintptr(vm.fpOffset())
 	spOffset := uintptr(vm.spOffset())
+	oldStackEnd := oldStackPtr + uintptr(len(vm.stack))*value.ValueSize
 
 	for i := range vm.callFrames {
 		cf := &vm.callFrames[i]
 		offset := uintptr(vm.stackOffsetFromToRaw(cf.fp, oldStackPtr))
 		cf.fp = vm.stackAddRaw(newStackPtr, offset)
 		for _, upvalue := range cf.upvalues {
-			if upvalue.IsClosed() {
+			// an upvalue shared by several frames has already been rebased
+			slotPtr := uintptr(unsafe.Pointer(upvalue.slot))
+			if upvalue.IsClosed() || slotPtr < oldStackPtr || slotPtr >= oldStackEnd {
 				continue
 			}
 
@@ -2283,7 +2286,8 @@ func (vm *Thread) growValueStack() {
 	}
 
 	for _, upvalue := range vm.upvalues {
-		if upvalue.IsClosed() {
+		slotPtr := uintptr(unsafe.Pointer(upvalue.slot))
+		if upvalue.IsClosed() || slotPtr < oldStackPtr || slotPtr >= oldStackEnd {
 			continue
 		}
 
@@ -2291,7 +2295,6 @@ func (vm *Thread) growValueStack() {
 		upvalue.slot = vm.stackAdd(&newStack[0], offset)
 	}
 
-	oldStackEnd := oldStackPtr + uintptr(len(vm.stack))*value.ValueSize
 	for upvalue := vm.openUpvalueHead; upvalue != nil; upvalue = upvalue.next {
 		slotPtr := uintptr(unsafe.Pointer(upvalue.slot))
 		if upvalue.IsClosed() || slotPtr < oldStackPtr || slotPtr >= oldStackEnd {
